@@ -276,6 +276,7 @@ func init() {
 		}
 		sh := findFunc(f, "", "sourceHash")
 		var srcW, toolW []string
+		toolAcc := ""
 		writes := func(body *ast.BlockStmt, hashed string, into *[]string) {
 			for _, st := range body.List {
 				switch t := show(st); t {
@@ -298,7 +299,17 @@ func init() {
 						failShape("sourceHash: unrecognised loop over the sources {%s}", show(x))
 					}
 					writes(x.Body, "src", &srcW)
-				case `target.AllTools()`:
+				case `target.AllTools()`, `target.Tools`:
+					// which tools enter the source hash: AllTools() = the list-form tools followed by the dict-form (named)
+					// ones; the field Tools = the list-form ones only. The model follows whichever the source has
+					// (Engine.hashed_tool_paths); the theorems need TAllTools.
+					if toolAcc != "" {
+						failShape("sourceHash: more than one loop over the tools")
+					}
+					toolAcc = map[string]string{`target.AllTools()`: "TAllTools", `target.Tools`: "TUnnamedTools"}[show(x.X)]
+					if show(x.Value) != "tool" {
+						failShape("sourceHash: unrecognised loop over the tools {%s}", show(x))
+					}
 					if len(x.Body.List) != 1 {
 						failShape("sourceHash: unrecognised loop over the tools {%s}", show(x))
 					}
@@ -321,6 +332,74 @@ func init() {
 		b.WriteString("Inductive hwrite := WHash | WPath.\n")
 		b.WriteString("Definition source_hash_per_source : list hwrite := [" + strings.Join(srcW, "; ") + "].\n")
 		b.WriteString("Definition source_hash_per_tool_output : list hwrite := [" + strings.Join(toolW, "; ") + "].\n")
+		if toolAcc == "" {
+			failShape("sourceHash: no loop over the tools")
+		}
+		b.WriteString("Inductive tools_accessor := TAllTools | TUnnamedTools.\n")
+		b.WriteString("Definition source_hash_tools : tools_accessor := " + toolAcc + ".\n")
+
+		// ---- outputHash (build_step.go): is every output re-hashed (recalc = true) - on the single-output fast path and in
+		// the loop over several outputs? After a cache restore the memo of the path hasher still holds the hashes of the
+		// files that were there before (buildTarget hashed them for oldOutputHash): Model/C02.v, restore_trace.
+		oh := findFunc(bf, "", "outputHash")
+		recalcArg := func(e ast.Expr, first string) string {
+			call, ok := e.(*ast.CallExpr)
+			if !ok || bshow(call.Fun) != "hasher.Hash" || len(call.Args) != 4 || bshow(call.Args[0]) != first ||
+				bshow(call.Args[2]) != "!target.IsFilegroup" || bshow(call.Args[3]) != "target.HashLastModified()" {
+				failShape("outputHash: unrecognised hash call {%s}", bshow(e))
+			}
+			switch v := bshow(call.Args[1]); v {
+			case "true", "false":
+				return v
+			default:
+				failShape("outputHash: the recalc argument {%s} is not a literal", v)
+			}
+			return ""
+		}
+		var recalcSingle, recalcEach string
+		for _, st := range oh.Body.List {
+			switch x := st.(type) {
+			case *ast.IfStmt:
+				if bshow(x.Cond) != "combine == nil" || len(x.Body.List) != 1 {
+					failShape("outputHash: unrecognised branch {%s}", bshow(x.Cond))
+				}
+				ret, ok := x.Body.List[0].(*ast.ReturnStmt)
+				if !ok || len(ret.Results) != 1 {
+					failShape("outputHash: the single-output branch is not one return")
+				}
+				recalcSingle = recalcArg(ret.Results[0], "outputs[0]")
+			case *ast.RangeStmt:
+				if bshow(x.X) != "outputs" || bshow(x.Value) != "filename" || len(x.Body.List) == 0 {
+					failShape("outputHash: unrecognised loop {%s}", bshow(x.X))
+				}
+				as, ok := x.Body.List[0].(*ast.AssignStmt)
+				if !ok || len(as.Rhs) != 1 || bshow(as.Lhs[0]) != "h2" {
+					failShape("outputHash: the loop does not start with the hash of the output")
+				}
+				recalcEach = recalcArg(as.Rhs[0], "filename")
+			default:
+				switch bshow(st) {
+				case `h := combine()`, `return h.Sum(nil), nil`:
+				default:
+					failShape("outputHash: unrecognised statement {%s}", bshow(st))
+				}
+			}
+		}
+		if recalcSingle == "" || recalcEach == "" {
+			failShape("outputHash: single-output branch or loop missing")
+		}
+		b.WriteString("Definition output_hash_recalc_single : bool := " + recalcSingle + ".\n")
+		b.WriteString("Definition output_hash_recalc_each : bool := " + recalcEach + ".\n")
+		// the order on the restore path: buildTarget hashes the outputs that are there (oldOutputHash) BEFORE the cache is asked,
+		// retrieveArtifacts hashes them again (calculateAndCheckRuleHash -> OutputHash -> outputHash) AFTER the retrieve
+		if i, j := strings.Index(body, "oldOutputHash := outputHashOrNil(target, target.FullOutputs(), state.PathHasher, state.PathHasher.NewHash)"), strings.Index(body, "retrieveArtifacts(state, target, oldOutputHash)"); i < 0 || j < 0 || i > j {
+			failShape("buildTarget: oldOutputHash is not computed before retrieveArtifacts")
+		}
+		ra := bshow(findFunc(bf, "", "retrieveArtifacts").Body)
+		if i, j := strings.Index(ra, "retrieveFromCache(state.Cache, target, cacheKey, target.Outputs())"), strings.Index(ra, "newOutputHash, err := calculateAndCheckRuleHash(state, target)"); i < 0 || j < 0 || i > j {
+			failShape("retrieveArtifacts: the outputs are not hashed after the retrieve")
+		}
+		b.WriteString("Definition restore_hashes_before_and_after : bool := true.\n")
 
 		// ---- prepareDirectories / prepareDirectory: the temporary directory is removed and recreated before every build
 		// (the model treats it as a function of the sources: Engine.run_action, command CatAll)
